@@ -1328,9 +1328,9 @@ class FatDirectory(abc.MutableMapping):
         ranges = [range(1, self.MAX_SFN_SUFFIX)]
         regexes = [
             re.compile(
-                f'{re.escape(prefix[:7 - i])}~([0-9]{{{i}}})\\.{re.escape(ext)}'
+                f'{re.escape(prefix[:7 - i])}~([0-9]{{{i}}})\\.{re.escape(ext)}\\Z'
                 if ext else
-                f'{re.escape(prefix[:7 - i])}~([0-9]{{{i}}})',
+                f'{re.escape(prefix[:7 - i])}~([0-9]{{{i}}})\\Z',
                 re.IGNORECASE)
             for i in range(1, len(str(self.MAX_SFN_SUFFIX)) + 1)
         ]
